@@ -583,6 +583,7 @@ def m3(ctx, al, ntrees, nsys, length):
     rng = ctx.rng
     recs, meta = [], []
     tries = 0
+    unjudged = [0]
     # --- deeper random trees: the code's numpoly / denpoly judged by cross-multiplication in TLC
     while len(recs) < ntrees and tries < ntrees * 60:
         tries += 1
@@ -603,9 +604,9 @@ def m3(ctx, al, ntrees, nsys, length):
             meta.append(dict(info, raised="%s: %s" % (type(ex).__name__, str(ex)[:120])))
             continue
         if not encodable([pairs(n), pairs(d)]):
-            ctx.count(1)
-            ctx.violation("C05:tree:magnitude", dict(info, why="observed coefficient outside the range of every specified "
-                                                               "value for this tree", observed=[show(n), show(d)]))
+            # numpoly / denpoly are not canonical (any equivalent fraction is right, the judge cross-multiplies):
+            # numbers TLC cannot hold are not a verdict, the observation is left unjudged
+            unjudged[0] += 1
             continue
         recs.append({"op": "tree", "t": jtree(t), "n": pairs(n), "d": pairs(d), "raised": False})
         meta.append(info)
@@ -673,13 +674,17 @@ def m3(ctx, al, ntrees, nsys, length):
             continue
         info["shared_denominator"] = tf["d"] == tg["d"] and tf["d"] != {0: F(1)}
         if not encodable(rec):
-            ctx.count(1)
-            ctx.violation("C05:sys:magnitude", dict(info, why="observed value outside the range of every specified value"))
+            unjudged[0] += 1              # beyond TLC's integers: not judged (the screen above is a heuristic)
             continue
         recs.append(rec)
         meta.append(info)
         made += 1
         ctx.count(1, nontrivial_key=("m3", len(recs)))
+    if unjudged[0]:
+        ctx.log("M3: %d observations had numbers beyond TLC's integers and were left unjudged" % unjudged[0])
+    if unjudged[0] * 5 > len(recs):
+        raise tlc.MachineryError("C05 M3: %d of %d observations unjudged (magnitude screen too weak)"
+                                 % (unjudged[0], unjudged[0] + len(recs)))
     bad = tracecheck.run_records(ctx, "FilterAlgTrace", {"MaxLen": length, "Cases": "{}"}, recs,
                                  what="C05 recorded filter algebra", chunk=300)
     hard = {}
